@@ -90,7 +90,8 @@ def check(ctx, rep):
             if nm in ("builtins.sorted", "builtins.reversed", "builtins.set", "builtins.frozenset", "random.shuffle", "random.sample") \
                     or (isinstance(call.func, ast.Attribute) and call.func.attr in ("sort", "reverse", "shuffle")):
                 problems.add(f"`{norm(call)[:50]}` changes the configured order")
-        w = Walker(prog, ctx.resolver)
+        # the search may live in a helper of the multiplexer's module
+        w = Walker(prog, ctx.resolver, inline=lambda fn, t, d: d < 3 and fn.cls is None and fn.module is gp.module and fn is not gp)
         n_ret = 0
         for p in w.run(gp):
             if p.kind != "return":
@@ -98,8 +99,14 @@ def check(ctx, rep):
             ret = [e for e in p.events if e.kind == "return"][-1]
             if ret.node.value is None or (isinstance(ret.node.value, ast.Constant) and ret.node.value.value is None):
                 continue
+            if p.value is not None and p.value.kind == "const" and p.value.value is None:
+                continue  # the helper's "nobody claimed it" result handed on
             n_ret += 1
             name = norm(ret.node.value)
+            inner = [e for e in p.events if e.kind == "return" and e.node.value is not None and e.frame and e.frame[0] is not gp]
+            if inner and isinstance(ret.node.value, ast.Call) and not (isinstance(ret.node.value.func, ast.Attribute)):
+                # `return helper(...)`: what the helper returned
+                name = norm(inner[0].node.value)
             fm = _next_first_match(ret.node.value, gp, ret.defs)
             if fm is not None:
                 problems.update(fm)  # `return next(<candidates that accept>, default)`: first match by construction
